@@ -2361,12 +2361,12 @@ where
             Ok(out) => {
                 // A succeeded -- go back to the beginning and try B
                 let after = inp.save();
-                inp.rewind(before);
+                inp.rewind_input(before);
 
                 match self.parser_b.go::<Check>(inp) {
                     Ok(()) => {
                         // B succeeded -- go to the end of A and return its output
-                        inp.rewind(after);
+                        inp.rewind_input(after);
                         Ok(out)
                     }
                     Err(()) => {
@@ -2678,7 +2678,7 @@ where
         let before = inp.save();
         match self.parser.go::<M>(inp) {
             Ok(out) => {
-                inp.rewind(before);
+                inp.rewind_input(before);
                 Ok(out)
             }
             Err(()) => Err(()),
